@@ -20,10 +20,10 @@ Init == /\ i \in 1 .. Len(Cases) /\ j \in 1 .. Len(Cases[i].inputs)
 
 Report(clause) == (clause # "ok") => PrintT(<<"VERIF", "mismatch", i, clause, j>>)
 RunClause(c) ==
-  IF mA.status # "done" THEN "ok"
+  IF mA.status # "done" \/ mA.pz = 1 THEN "ok"          \* a run that creates poison puts no obligation on an executing implementation
   ELSE LET g == c.got[j] IN
        IF g.st # "done" THEN "InterpreterFailsWhereSemanticsDefined"
-       ELSE IF g.rets # mA.rets THEN "InterpreterComputesMLIRSemantics" ELSE "ok"
+       ELSE IF ~RefinesVals(mA.rets, g.rets) THEN "InterpreterComputesMLIRSemantics" ELSE "ok"
 
 Next ==
   \/ /\ phase = "A" /\ mA.status = "run" /\ mA' = Step(Cases[i].A, mA) /\ UNCHANGED <<i, j, phase, mB>>
